@@ -124,7 +124,7 @@ func runSearch(a map[string]string) {
 		pkb := pk.Serialize()
 		cands := g.sigCandidates(sk, msg)
 		honest := cands[0].b
-		hp, _ := ptOf(hx.Hex(honest))
+		hp := new(bn.G1).ScalarMult(refG1(msg), sk)
 		// a few extra random scalar multiples of the honest signature and of H(m)
 		for j := 0; j < 4; j++ {
 			k := g.scalar()
@@ -171,7 +171,13 @@ func runSearch(a map[string]string) {
 				map[string]string{"line": line, "class": c.class, "expected": want, "observed": got, "honest_sig": hx.Hex(honest)}})
 		}
 		// S1b: other keys / other encodings of the key, honest signature
+		// (presupposes that the honest signature verifies under the honest key; if it does not,
+		// S1 has already reported that and the key-side expectations would only echo it)
+		baseOK := hx.Guard(func() string { return b01(verify(pkb, msg, honest)) }) == "1"
 		for _, k := range g.pkCandidates(sk) {
+			if !baseOK {
+				break
+			}
 			got := hx.Guard(func() string { return b01(verify(k.b, msg, honest)) })
 			evals++
 			results["pk:"+k.class+"="+got]++
